@@ -263,7 +263,8 @@ func c20Generate(p picker, o Opts) c20Scenario {
 		}
 	}
 	sc.Script = string(script)
-	if !strings.Contains(sc.Script, "X") && sc.CancelCall < 0 && sc.CancelStep == 0 {
+	if !strings.Contains(sc.Script, "X") && sc.CancelCall < 0 {
+		// (also the fallback when a cancel step was drawn beyond the end of the execution)
 		// make every run end: cancel while the reader waits for traffic after the script
 		sc.CancelCall = len(script)
 	}
@@ -282,12 +283,13 @@ func c20Generate(p picker, o Opts) c20Scenario {
 		// error burst far beyond the 100-slot buffer against a consumer that gives up
 		sc.StopAtCancel = true
 		sc.StallAfter = 1 + p.n("stallafter", 40)
-		sc.CancelCall, sc.CancelStep = -1, 0
+		sc.CancelStep = 0
 		script = script[:0]
 		for i, l := 0, 120+p.n("stalllen", 200); i < l; i++ {
 			script = append(script, []byte{oUnknown, oProcErr, oFrame}[p.n("se", 3)])
 		}
 		sc.Script = string(script)
+		sc.CancelCall = len(script) // fewer errors than the stall threshold: cancel when the traffic ends
 		sc.Variant = sc.Variant[:0]
 		for range script {
 			sc.Variant = append(sc.Variant, p.n("v", 12))
